@@ -8,6 +8,7 @@ from ..cfg import calls_at, call_attr, is_self_attr
 from ..norm import Normalizer, single_defs
 from .. import inventory as inv
 from . import c01
+from .. import elem
 
 EXPLANATION = '''
 Static analysis of Environment.pause_matching_events / unpause_matching_events / cancel_matching_events
@@ -25,181 +26,6 @@ NOT decided: agreement of whole operation sequences with a reference queue.
 ASSUMPTIONS = ['list.remove(x) removes the event itself (Event defines no __eq__)',
                'asset ids are ints, so `x.asset_id == None` never selects anything']
 MIN_INSTANCES = 25
-
-ADDERS = {'append', 'add', 'insert', 'appendleft'}
-
-
-class Rename(ast.NodeTransformer):
-    def __init__(self, m):
-        self.m = m
-
-    def visit_Name(self, n):
-        if n.id in self.m:
-            return ast.copy_location(ast.Name(self.m[n.id], n.ctx), n)
-        return n
-
-
-def rn(node, m):
-    return ast.unparse(Rename(m).visit(copy.deepcopy(node)))
-
-
-def attr_sources(expr):
-    """names of self.<list> attributes an iterable expression draws from; None if unrecognised"""
-    e = expr
-    if isinstance(e, ast.Call) and isinstance(e.func, ast.Name) and e.func.id in ('list', 'tuple', 'sorted', 'reversed') and len(e.args) == 1:
-        return attr_sources(e.args[0])
-    if isinstance(e, ast.Call) and isinstance(e.func, ast.Attribute) and e.func.attr == 'copy' and not e.args:
-        return attr_sources(e.func.value)
-    if isinstance(e, ast.Subscript) and isinstance(e.slice, ast.Slice) and e.slice.lower is None and e.slice.upper is None:
-        return attr_sources(e.value)
-    if isinstance(e, ast.BinOp) and isinstance(e.op, ast.Add):
-        a, b = attr_sources(e.left), attr_sources(e.right)
-        return None if a is None or b is None else a | b
-    if isinstance(e, ast.Call) and ast.unparse(e.func) in ('itertools.chain', 'chain'):
-        out = set()
-        for a in e.args:
-            s = attr_sources(a)
-            if s is None:
-                return None
-            out |= s
-        return out
-    if is_self_attr(e):
-        return {e.attr}
-    return None
-
-
-def _inline_selector(P, cls, call):
-    """`self._helper(<list>, <id>)` / `Class._helper(...)` whose body is `return <comprehension over a parameter>`:
-    the comprehension with the parameters replaced by the argument expressions, else None"""
-    f = call.func
-    if P is None or cls is None or not isinstance(f, ast.Attribute) or not isinstance(f.value, ast.Name) or f.value.id not in ('self', cls.name):
-        return None
-    hit = P.lookup(cls, f.attr)
-    if not hit or hit[1] != 'method':
-        return None
-    fn = hit[2]
-    params = [a.arg for a in fn.args.args]
-    if f.attr not in hit[0].static and params[:1] == ['self']:
-        params = params[1:]
-    body = [s for s in fn.body if not (isinstance(s, ast.Expr) and isinstance(s.value, ast.Constant))]
-    if len(body) != 1 or not isinstance(body[0], ast.Return) or not isinstance(body[0].value, (ast.ListComp, ast.GeneratorExp)) or call.keywords or len(call.args) != len(params):
-        return None
-
-    class Sub(ast.NodeTransformer):
-        def visit_Name(self, n):
-            if n.id in params and isinstance(n.ctx, ast.Load):
-                return copy.deepcopy(call.args[params.index(n.id)])
-            return n
-    return Sub().visit(copy.deepcopy(body[0].value))
-
-
-def selection_loops(fn, P=None, cls=None):
-    """effect summaries of the `for` loops of fn:
-    dict(loop=For, sources=set|None, preds=[str], actions=[(stmt, text)], var='E_')"""
-    defs = single_defs(fn)
-    out = []
-    for loop in [n for n in ast.walk(fn) if isinstance(n, ast.For)]:
-        if not isinstance(loop.target, ast.Name):
-            continue
-        v = loop.target.id
-        it = loop.iter
-        preds = []
-        if isinstance(it, ast.Name) and it.id in defs:
-            it = defs[it.id]
-        if isinstance(it, ast.Call):
-            sel = _inline_selector(P, cls, it)
-            if sel is not None:
-                it = sel
-        # is the selection materialised before the loop runs (list / comprehension / copy), or produced lazily while the loop body runs?
-        lazy = isinstance(it, ast.GeneratorExp) or is_self_attr(it) or (isinstance(it, ast.Call) and isinstance(it.func, ast.Name) and it.func.id in ('filter', 'iter', 'reversed', 'map'))
-        sources = None
-        if isinstance(it, (ast.ListComp, ast.GeneratorExp)) and len(it.generators) == 1:
-            gen = it.generators[0]
-            if isinstance(gen.target, ast.Name) and isinstance(it.elt, ast.Name) and it.elt.id == gen.target.id:
-                sources = attr_sources(gen.iter)
-                preds += [rn(c, {gen.target.id: 'E_'}) for c in gen.ifs]
-        elif isinstance(it, ast.Call) and isinstance(it.func, ast.Name) and it.func.id == 'filter' and len(it.args) == 2 \
-                and isinstance(it.args[0], ast.Lambda):
-            lam = it.args[0]
-            sources = attr_sources(it.args[1])
-            preds.append(rn(lam.body, {lam.args.args[0].arg: 'E_'}))
-        else:
-            sources = attr_sources(it)
-        actions = []
-
-        def flat(stmts):
-            for s in stmts:
-                if isinstance(s, ast.If) and not s.orelse:
-                    preds.append(rn(s.test, {v: 'E_'}))
-                    flat(s.body)
-                elif isinstance(s, ast.If) and len(s.body) == 1 and isinstance(s.body[0], ast.Continue):
-                    preds.append('not (' + rn(s.test, {v: 'E_'}) + ')')
-                    flat(s.orelse)
-                elif isinstance(s, ast.Assign) and all(isinstance(t, ast.Name) for t in s.targets) and not any(isinstance(x, ast.Call) for x in ast.walk(s.value)):
-                    pass        # a pure local definition is not an effect on the event (its value is substituted where it is used)
-                else:
-                    actions.append((s, rn(s, {v: 'E_'})))
-        flat(loop.body)
-        out.append({'loop': loop, 'sources': sources, 'preds': preds, 'actions': actions, 'iter_name': loop.iter.id if isinstance(loop.iter, ast.Name) else None, 'lazy': lazy})
-    # a loop whose only effect is `<local list>.append(<element>)` builds a selection: the loop over that local inherits its
-    # sources and predicates (for + if + append is the spelled-out form of the comprehension)
-    empties = {t.id for n in ast.walk(fn) if isinstance(n, ast.Assign) and isinstance(n.value, ast.List) and not n.value.elts for t in n.targets if isinstance(t, ast.Name)}
-    builders = {}
-    for l in out:
-        if len(l['actions']) == 1:
-            t = l['actions'][0][1]
-            for L in empties:
-                if t == f'{L}.append(E_)' and l['sources'] is not None:
-                    builders[L] = l
-    if builders:
-        res = []
-        for l in out:
-            if any(l is b for b in builders.values()):
-                continue
-            b = builders.get(l['iter_name'])
-            if b is not None and not l['preds'] or (b is not None and l['sources'] is None):
-                l = dict(l, sources=b['sources'], preds=b['preds'] + l['preds'])
-            res.append(l)
-        out = res
-    return out
-
-
-def match_pred(p, param):
-    """the predicate is asset-id equality with the parameter"""
-    try:
-        e = ast.parse(p, mode='eval').body
-    except SyntaxError:
-        return False
-    if isinstance(e, ast.Compare) and len(e.ops) == 1 and isinstance(e.ops[0], ast.Eq):
-        s = {ast.unparse(e.left), ast.unparse(e.comparators[0])}
-        return s == {'E_.asset_id', param}
-    return False
-
-
-def guard_conditions(P, ctx, Env, name, o, param):
-    """with an asset id given (not None) every normal path through the operation reaches the selection loop"""
-    from ..state import Analysis, State
-    g = ctx.graph(Env, name)
-    an = Analysis(P, g, [])
-
-    def hook(an_, n, before, after):
-        if n.kind == 'for' and n.frame is g.top:
-            return after.with_flag('selection')
-    an.node_hooks.append(hook)
-    s0 = State({})
-    s0.locals[(g.top.id, param)] = 'S'
-    res = ctx.explore(an, [s0])
-    for st in res.exits():
-        o.count()
-        if 'selection' not in st.flags:
-            path = res.path_lines(g.exit, st)
-            conds = [n for n in res.path(g.exit, st) if n.kind == 'cond']
-            o.fail(P, f'Environment.{name}', conds[-1].ast if conds else name,
-                   'with an asset id given, a path through the operation skips the selection of matching events',
-                   node=conds[-1] if conds else None, file=Env.mod.path, path=path)
-        else:
-            o.witness('reaches-selection')
-
 
 def own_id_only(ctx, o):
     """every pause / unpause / cancel call in the package is made by an asset about its own events (`self.id`): events scheduled under
@@ -228,154 +54,156 @@ def own_id_only(ctx, o):
     o.require(n >= 3, f'only {n} pause/unpause/cancel call sites found')
 
 
+OPS = ('pause_matching_events', 'unpause_matching_events', 'cancel_matching_events')
+LISTS = ['_events', '_paused_events']
+NAMES = {'_events': 'pending', '_paused_events': 'paused'}
+
+
+def id_match(m):
+    """the selection predicate `<element>.asset_id == <asset id parameter>` (either operand order, == or !=); m = its value for the tracked element"""
+    def match(t, elems, params, value=None):
+        if isinstance(t, ast.Compare) and len(t.ops) == 1 and isinstance(t.ops[0], (ast.Eq, ast.NotEq)):
+            a, b = t.left, t.comparators[0]
+            for x, y in ((a, b), (b, a)):
+                if isinstance(x, ast.Attribute) and x.attr == 'asset_id' and isinstance(x.value, ast.Name) and x.value.id in elems \
+                        and isinstance(y, ast.Name) and y.id in params:
+                    v = m if value is None else value
+                    return v if isinstance(t.ops[0], ast.Eq) else not v
+        return None
+    return match
+
+
+_TABLE_CACHE = {}
+
+
+def element_table(P, Env, op):
+    """per-element effect of one operation: {(origin list, predicate value, id given): [path summaries]} (sa/elem.py)"""
+    key = (id(P), op)
+    if key not in _TABLE_CACHE:
+        t = {}
+        for origin in LISTS:
+            for m in (True, False):
+                t[(origin, m, True)] = elem.run(P, Env, op, LISTS, ['_events'], id_match(m), origin, param_given=True)
+            t[(origin, False, False)] = elem.run(P, Env, op, LISTS, ['_events'], id_match(False), origin, param_given=False)
+        _TABLE_CACHE[key] = t
+    return _TABLE_CACHE[key]
+
+
+LOG_TEXT = {
+    'unordered': 'the pending list does not stay sorted',
+    'mutate-while-iterating': 'the list is changed while the loop iterates over it lazily: every second matching event is skipped',
+    'early-exit': 'not every event is visited',
+    'raises': 'the operation raises',
+    'escape': 'an event list escapes to a function that may change it',
+    'rebind': 'an event list is re-bound to a new list object (holders of the old list lose track)',
+    'unrecognised': 'construct not understood by the per-element analysis',
+}
+
+
+def check_table(P, Env, N, o, op, expect):
+    """expect: {(origin, m): (counts dict, [(attr, value check, text)], needs_sorted_insert)}; every other case must leave the element alone"""
+    dk, fn = P.method(Env, op)
+    try:
+        table = element_table(P, Env, op)
+    except elem.Unknown as e:
+        raise AnalysisError(f'Environment.{op}: per-element analysis failed ({e})')
+    seen_msgs = set()
+
+    def fail(construct, msg, line=None):
+        if msg in seen_msgs:
+            return
+        seen_msgs.add(msg)
+        o.fail(P, f'Environment.{op}', construct, msg, file=Env.mod.path, line=line or fn.lineno)
+
+    for (origin, m, given), paths in sorted(table.items()):
+        case = f'an event in the {NAMES[origin]} list whose asset id ' + ('matches' if m else 'does not match') + ('' if given else ' (asset id None)')
+        exp = expect.get((origin, m)) if given else None
+        o.require(bool(paths), f'{op}: no path for {case}')
+        for r in paths:
+            o.count()
+            for kind, detail, line in r['log']:
+                fail(detail, f'{LOG_TEXT.get(kind, kind)}: {detail}', line)
+            if r['flow'] == 'raise':
+                fail(op, f'{case}: the operation raises')
+            want_counts = exp[0] if exp else {a: (1 if a == origin else 0) for a in LISTS}
+            if r['counts'] != want_counts:
+                got = ', '.join(f'{r["counts"][a]}x in the {NAMES[a]} list' for a in LISTS)
+                want = ', '.join(f'{want_counts[a]}x in the {NAMES[a]} list' for a in LISTS)
+                fail(op, f'{case}: afterwards it is {got}; expected {want}')
+            want_writes = exp[1] if exp else []
+            got_attrs = [w[0] for w in r['writes']]
+            if sorted(got_attrs) != sorted(a for a, _, _ in want_writes):
+                fail(op, f'{case}: attributes written {got_attrs}; expected {[a for a, _, _ in want_writes]}', r['writes'][0][3] if r['writes'] else None)
+            else:
+                for attr, ok, text in want_writes:
+                    w = [x for x in r['writes'] if x[0] == attr][0]
+                    if not ok(w[1]):
+                        fail(ast.unparse(w[1]), f'{case}: {text}, found `{attr} = {ast.unparse(w[1])}`', w[3])
+            if exp and exp[2]:
+                ins = [e for e in r['events'] if e[1] in ('insort', 'heappush') and e[2] == '_events']
+                if len(ins) != 1:
+                    fail(op, f'{case}: it must be inserted in order into the pending list exactly once')
+                else:
+                    late = [w for w in r['writes'] if w[0] == 'time' and w[2] > ins[0][0]]
+                    if late:
+                        fail(op, f'{case}: the event is inserted into the sorted pending list before its time is updated', late[0][3])
+            if exp is None and given is True and m is True:
+                pass
+            if exp is not None and not seen_msgs:
+                o.witness((op, origin, m))
+    o.sample({'operation': op, 'file': P.rel(Env.mod.path), 'line': fn.lineno,
+              'per_element_effect': {f'{NAMES[k[0]]}/{"match" if k[1] else "no match"}/{"id" if k[2] else "None"}':
+                                     [{'counts': r['counts'], 'writes': [(w[0], ast.unparse(w[1])) for w in r['writes']], 'ops': [e[1] + ':' + str(e[2]) for e in r['events']]} for r in v][:2]
+                                     for k, v in sorted(table.items())}})
+
+
 def check(ctx):
     P = ctx.P
     Env = P.cls('Environment')
     N = Normalizer(P, Env)
     obs = []
 
-    def summary(name, o):
-        dk, fn = P.method(Env, name)
-        params = [a.arg for a in fn.args.args][1:]
-        if not params:
-            raise AnalysisError(f'Environment.{name} takes no asset id')
-        param = params[0]
-        loops = selection_loops(fn, P, Env)
-        acting = [l for l in loops if l['actions']]
-        o.count()
-        if len(acting) != 1:
-            o.fail(P, f'Environment.{name}', f'for event in <selection>', f'expected one loop over the selected events, found {len(acting)}',
-                   file=Env.mod.path, line=fn.lineno)
-            return None, fn, param
-        l = acting[0]
-        o.count()
-        if l['sources'] is None:
-            o.fail(P, f'Environment.{name}', l['loop'].iter, 'cannot determine which list the events are selected from', file=Env.mod.path, line=l['loop'].lineno)
-            return None, fn, param
-        o.count()
-        if len(l['preds']) != 1 or not match_pred(l['preds'][0], param):
-            o.fail(P, f'Environment.{name}', ' and '.join(l['preds']) or 'no predicate',
-                   f'events must be selected by `event.asset_id == {param}` and nothing else; found {l["preds"]}', file=Env.mod.path, line=l['loop'].lineno)
-        else:
-            o.witness('predicate')
-        # a loop that adds to / removes from a list it is lazily iterating skips elements
-        o.count()
-        if l.get('lazy') and l['sources']:
-            touched = [t for _, t in l['actions'] if any(t.startswith(f'self.{src}.') and t.split('.')[2].split('(')[0] in ('remove', 'pop', 'append', 'insert', 'clear') for src in l['sources'])]
-            if touched:
-                o.fail(P, f'Environment.{name}', l['loop'].iter, f'the selected events are produced lazily from {sorted(l["sources"])} while the loop body modifies that list ({touched[0]}): '
-                       'every second matching event is skipped', file=Env.mod.path, line=l['loop'].lineno)
-        guard_conditions(P, ctx, Env, name, o, param)
-        o.sample({'operation': name, 'selects_from': sorted(l['sources']), 'predicate': l['preds'], 'per_event_actions': [t for _, t in l['actions']],
-                  'file': P.rel(Env.mod.path), 'line': l['loop'].lineno})
-        return l, fn, param
+    def is_now(e):
+        return N.norm(e, {}).is_({'NOW': 1})
+
+    def is_shifted(e):
+        return N.norm(e, {}).is_({'NOW': 1, 'E_.time': 1, 'E_.paused_at': -1})
+
+    def is_true(e):
+        return isinstance(e, ast.Constant) and e.value is True
 
     # ---- C07.1 pause ---------------------------------------------------------------
-    o1 = Ob('C07.1', 'K2+K6', 'pause: select from the pending list only by asset id; each selected event is added to the paused '
-                              'list, removed from the pending list and stamped paused_at = now')
+    o1 = Ob('C07.1', 'K2+K6', 'pause: exactly the pending events with the given asset id leave the pending list (which stays sorted), enter the '
+                              'paused list once and are stamped paused_at = now; every other event is left alone')
     obs.append(o1)
-    l, fn, param = summary('pause_matching_events', o1)
-    if l:
-        o1.count()
-        if l['sources'] != {'_events'}:
-            o1.fail(P, 'Environment.pause_matching_events', l['loop'].iter, f'pause must select from the pending list only, selects from {sorted(l["sources"])}',
-                    file=Env.mod.path, line=l['loop'].lineno)
-        else:
-            o1.witness('source')
-        texts = [t for _, t in l['actions']]
-        need = {
-            'added to the paused list': lambda t: any(t == f'self._paused_events.{a}(E_)' for a in ADDERS) or t in ('self._paused_events.insert(0, E_)', 'self._paused_events += [E_]'),
-            'removed from the pending list': lambda t: t == 'self._events.remove(E_)',
-        }
-        for what, pred in need.items():
-            o1.count()
-            k = [t for t in texts if pred(t)]
-            if len(k) != 1:
-                o1.fail(P, 'Environment.pause_matching_events', what, f'each paused event must be {what} exactly once; found {len(k)} such action(s) among {texts}',
-                        file=Env.mod.path, line=l['loop'].lineno)
-            else:
-                o1.witness(what)
-        o1.count()
-        stamps = [(s, t) for s, t in l['actions'] if isinstance(s, ast.Assign) and t.startswith('E_.paused_at =')]
-        if len(stamps) != 1 or not N.norm(stamps[0][0].value, single_defs(fn)).is_({'NOW': 1}):
-            o1.fail(P, 'Environment.pause_matching_events', 'E_.paused_at = self.now', 'each paused event must be stamped with the current time',
-                    file=Env.mod.path, line=l['loop'].lineno)
-        else:
-            o1.witness('stamp')
-        for s, t in l['actions']:
-            o1.count()
-            if not (any(p(t) for p in need.values()) or t.startswith('E_.paused_at =')):
-                o1.fail(P, 'Environment.pause_matching_events', t, 'unexpected effect on a paused event', file=Env.mod.path, line=s.lineno)
+    check_table(P, Env, N, o1, 'pause_matching_events', {
+        ('_events', True): ({'_events': 0, '_paused_events': 1}, [('paused_at', is_now, 'each paused event must be stamped with the current time')], False)})
 
     # ---- C07.2 unpause -----------------------------------------------------------------
-    o2 = Ob('C07.2', 'K2+K6', 'unpause: select from the paused list only by asset id; each is removed from the paused list, its '
-                              'time becomes time + now - paused_at, and only then it is inserted in order into the pending list')
+    o2 = Ob('C07.2', 'K2+K6', 'unpause: exactly the paused events with the given asset id leave the paused list, get the time '
+                              'time + now - paused_at, and only then are inserted in order into the pending list; every other event is left alone')
     obs.append(o2)
-    l, fn, param = summary('unpause_matching_events', o2)
-    if l:
-        o2.count()
-        if l['sources'] != {'_paused_events'}:
-            o2.fail(P, 'Environment.unpause_matching_events', l['loop'].iter, f'unpause must select from the paused list only, selects from {sorted(l["sources"])}',
-                    file=Env.mod.path, line=l['loop'].lineno)
-        else:
-            o2.witness('source')
-        texts = [t for _, t in l['actions']]
-        rem = [i for i, t in enumerate(texts) if t == 'self._paused_events.remove(E_)']
-        ins = [i for i, (s, t) in enumerate(l['actions']) if isinstance(s, ast.Expr) and isinstance(s.value, ast.Call)
-               and ast.unparse(s.value.func) in c01.SORTED_INSERT and len(s.value.args) >= 2 and t.replace(' ', '').endswith('(self._events,E_)')]
-        upd = [i for i, (s, t) in enumerate(l['actions']) if t.startswith('E_.time')]
-        o2.count(3)
-        if len(rem) != 1:
-            o2.fail(P, 'Environment.unpause_matching_events', 'self._paused_events.remove(E_)', f'each resumed event must leave the paused list exactly once; actions: {texts}',
-                    file=Env.mod.path, line=l['loop'].lineno)
-        else:
-            o2.witness('removed')
-        if len(ins) != 1:
-            o2.fail(P, 'Environment.unpause_matching_events', 'bisect.insort(self._events, E_)', f'each resumed event must be inserted in order into the pending list exactly once; actions: {texts}',
-                    file=Env.mod.path, line=l['loop'].lineno)
-        else:
-            o2.witness('inserted')
-        if len(upd) != 1:
-            o2.fail(P, 'Environment.unpause_matching_events', 'E_.time += self.now - E_.paused_at', f'each resumed event must have its time shifted exactly once; actions: {texts}',
-                    file=Env.mod.path, line=l['loop'].lineno)
-        elif ins and upd[0] > ins[0]:
-            o2.fail(P, 'Environment.unpause_matching_events', texts[ins[0]], 'the event is inserted into the sorted pending list before its time is updated',
-                    file=Env.mod.path, line=l['actions'][ins[0]][0].lineno)
-        else:
-            o2.witness('order')
-        c01.unpause_time_form(P, o2)
-        for i, (s, t) in enumerate(l['actions']):
-            o2.count()
-            if i not in rem + ins + upd:
-                o2.fail(P, 'Environment.unpause_matching_events', t, 'unexpected effect on a resumed event', file=Env.mod.path, line=s.lineno)
+    check_table(P, Env, N, o2, 'unpause_matching_events', {
+        ('_paused_events', True): ({'_events': 1, '_paused_events': 0},
+                                   [('time', is_shifted, 'the unpaused time must be time + now - paused_at (pause length added)')], True)})
 
     # ---- C07.3 cancel --------------------------------------------------------------------
-    o3 = Ob('C07.3', 'K2', 'cancel: select from the pending and the paused list by asset id and raise the cancelled flag')
+    o3 = Ob('C07.3', 'K2', 'cancel: exactly the pending and the paused events with the given asset id get the cancelled flag; nothing moves')
     obs.append(o3)
-    l, fn, param = summary('cancel_matching_events', o3)
-    if l:
-        o3.count()
-        if l['sources'] != {'_events', '_paused_events'}:
-            o3.fail(P, 'Environment.cancel_matching_events', l['loop'].iter, f'cancel must cover pending and paused events, selects from {sorted(l["sources"])}',
-                    file=Env.mod.path, line=l['loop'].lineno)
-        else:
-            o3.witness('sources')
-        texts = [t for _, t in l['actions']]
-        o3.count()
-        if texts != ['E_.cancelled = True']:
-            o3.fail(P, 'Environment.cancel_matching_events', 'E_.cancelled = True', f'each selected event must be marked cancelled (and nothing else); actions: {texts}',
-                    file=Env.mod.path, line=l['loop'].lineno)
-        else:
-            o3.witness('flag')
+    check_table(P, Env, N, o3, 'cancel_matching_events', {
+        ('_events', True): ({'_events': 1, '_paused_events': 0}, [('cancelled', is_true, 'each selected event must be marked cancelled')], False),
+        ('_paused_events', True): ({'_events': 0, '_paused_events': 1}, [('cancelled', is_true, 'each selected event must be marked cancelled')], False)})
 
     # ---- C07.4 nobody else ---------------------------------------------------------------------
     o4 = Ob('C07.4', 'K1', 'no other code moves events between the lists or writes paused_at / cancelled / an event time')
     obs.append(o4)
-    allowed_ops = {('pause_matching_events', 'append'), ('pause_matching_events', 'insert'), ('unpause_matching_events', 'remove')}
+    movers = inv.covered(P, {'pause_matching_events', 'unpause_matching_events'})     # what they do to the lists is decided by C07.1-3
+    MUTATORS = {'append', 'insert', 'extend', 'remove', 'pop', 'clear', 'sort', 'reverse', 'appendleft', 'popleft', 'add', 'discard', '__setitem__', '__delitem__'}
     for s in inv.attr_uses(P, '_paused_events'):
         role = s.extra['role']
         o4.count()
         fn_name = s.func.name if s.func is not None else None
+        inside = s.cls is Env and fn_name in movers
         bad = None
         if role[0] == 'store':
             v = s.stmt.value if isinstance(s.stmt, ast.Assign) else None
@@ -383,24 +211,32 @@ def check(ctx):
                     isinstance(t, ast.Attribute) and t.attr == '_now' and isinstance(t.ctx, ast.Store) for t in ast.walk(s.func))):
                 bad = 'the paused list is re-bound outside the reset'
         elif role[0] == 'method':
-            if role[1] in ('copy', 'index', 'count'):
-                pass
-            elif s.cls is not Env or (fn_name, role[1]) not in allowed_ops:
-                bad = f'.{role[1]}() on the paused list outside pause/unpause'
-            else:
-                o4.witness((fn_name, role[1]))
-        elif role[0] in ('augstore', 'del', 'subscript-store', 'subscript-del', 'return', 'assign-alias', 'other', 'attr'):
-            bad = f'the paused list is changed or escapes ({role[0]})'
-        elif role[0] == 'arg' and role[1] not in c01.READ_FUNCS and not inv.readonly_param(P, s.cls, role[1], role[2]):
+            if role[1] in MUTATORS or role[1] not in ('copy', 'index', 'count'):
+                if not inside:
+                    bad = f'.{role[1]}() on the paused list outside pause/unpause'
+                else:
+                    o4.witness((fn_name, role[1]))
+        elif role[0] in ('augstore', 'del', 'subscript-store', 'subscript-del'):
+            if not inside:
+                bad = f'the paused list is changed outside pause/unpause ({role[0]})'
+        elif role[0] in ('return', 'assign-alias', 'attr'):
+            bad = f'the paused list escapes ({role[0]})'
+        elif role[0] == 'other':
+            par = s.mod.parents.get(s.node)
+            holder = s.mod.parents.get(par)
+            if not (isinstance(par, (ast.Tuple, ast.List)) and isinstance(holder, (ast.For, ast.comprehension)) and holder.iter is par):
+                bad = f'the paused list escapes ({role[0]})'
+        elif role[0] == 'arg' and role[1] not in c01.READ_FUNCS and not inv.readonly_param(P, s.cls, role[1], role[2]) \
+                and not (inside and role[1] in elem.INSORT | elem.HEAPPUSH):
             bad = f'the paused list escapes to {role[1]}()'
         if bad:
             o4.fail(P, s.ctx, s.stmt, bad, file=s.mod.path, line=s.line)
-    for attr, owners in (('paused_at', {('Event', '__init__'), ('Environment', 'pause_matching_events')}),
-                         ('time', {('Event', '__init__'), ('Environment', 'unpause_matching_events')})):
+    for attr, owners in (('paused_at', inv.covered(P, {'pause_matching_events'})),
+                         ('time', inv.covered(P, {'unpause_matching_events'}))):
         for s in inv.attr_stores(P, attr):
             o4.count()
             k = (s.cls.name if s.cls else None, s.func.name if s.func else None)
-            if k not in owners:
+            if not (k == ('Event', '__init__') or (k[0] == 'Environment' and k[1] in owners)):
                 o4.fail(P, s.ctx, s.stmt, f'Event.{attr} is written outside its owners', file=s.mod.path, line=s.line)
             else:
                 o4.witness((attr,) + k)
